@@ -224,6 +224,9 @@ def stun_replay(chk, path):
 # ----------------------------------------------------------------------------------------------------
 # C34  auto-advertise
 ADV_CTL = {"any": "4:00000000", "loopback": "4:7f000001", "private": "4:0a000005", "public": "4:2d403d56"}
+# a configured control host is free text: IPv6 literals in brackets, with a zone id, both, in upper case -- of every class the statement lists
+ADV_CTL_V6 = ["fe80::1c2d:3eff:fe4f:5a6b", "::1", "fd12:3456:789a::10", "::ffff:192.168.1.20", "2001:db8::5", "ff02::1", "fc00::1", "2606:4700::1111"]
+ADV_CTL_SPELLINGS = [f % a for a in ADV_CTL_V6 for f in ("[%s]", "%s%%eth0", "[%s%%eth0]")] + [a.upper() for a in ADV_CTL_V6] + ["[" + a.upper() + "%ETH0]" for a in ADV_CTL_V6[:3]]
 ADV_V4_RANGES = [("127.0.0.0", 8), ("10.0.0.0", 8), ("172.16.0.0", 12), ("192.168.0.0", 16), ("169.254.0.0", 16), ("100.64.0.0", 10),
                  ("192.0.2.0", 24), ("198.51.100.0", 24), ("203.0.113.0", 24), ("198.18.0.0", 15), ("224.0.0.0", 3)]
 ADV_V6_RANGES = [("fc00::", 7), ("fe80::", 10), ("2001:db8::", 32), ("ff00::", 8)]
@@ -278,7 +281,7 @@ def adv_random(rng, n):
     for _ in range(n):
         a = rand_addr()
         lines.append("classify a=" + a)
-        ctl = rng.choice(list(ADV_CTL.values()) + ["name:node.example", rand_addr()])
+        ctl = rng.choice(list(ADV_CTL.values()) + ["name:node.example", rand_addr(), "name:" + rng.choice(ADV_CTL_SPELLINGS)])
         lines.append("publish mode=%s allow=%d ctl=%s stun=%s%s" % (rng.choice(["on", "warn", "off"]), rng.randrange(2), ctl,
                                                                       a if rng.random() < 0.9 else "none", rng.choice(["", "", "", " prev=pub", " prev=priv"])))
     return lines
@@ -340,6 +343,10 @@ def adv_run(chk):
             lines.append("classify a=" + spec)
         lines.append("publish mode=%s allow=%d ctl=%s stun=%s%s" % (h["mode"], 1 if h["allow"] else 0, ADV_CTL[h["ctl"]], spec, "" if h.get("prev", "none") == "none" else " prev=" + h["prev"]))
     log("[gen] %d TLC cases (%d distinct boundary addresses)" % (len(hists), len(seen)))
+    # the control host as free text: every spelling of the listed IPv6 classes, STUN failing, every mode and allow setting
+    for sp in ADV_CTL_SPELLINGS:
+        for mode in ("on", "warn", "off"):
+            lines.append("publish mode=%s allow=%d ctl=name:%s stun=none" % (mode, 0 if mode != "off" else chk.rng.randrange(2), sp))
     adv_validate(chk, lines, "tlc-cases")
     adv_validate(chk, adv_random(chk.rng, 6000 if thorough else 800), "random")
     chk.cov["rule"] = ("cases = every state of spec/Advertise.tla (first/last address of each listed range, the neighbours just outside, IPv4-mapped "
